@@ -28,12 +28,17 @@ THEOREMS = [
     "Nix.C15.C15_view_formula",
     "Nix.C15.C15_invalid_view_empty",
     "Nix.C15.C15_read_total",
+    "Nix.C15.C15_float_bound",
+    "Nix.C15.C15_float_bound_linear",
+    "Nix.C15.C15_float_bound_origin_only",
 ]
 ASSUMPTIONS = [
     "values that are doubles in Python are exact rationals in the model: astype(double) is the identity and the "
-    "rounding of the float Horner evaluation is not modelled; the correspondence demands equality whenever every "
-    "float operation on the element's path is exact (checked in Fractions) and otherwise the stated bound "
-    "sum|c_k|((|y|+d)^k-|y|^k) + 4*(2n+1)*2^-53*sum|c_k|(|y|+d)^k, d = 2^-53|x| if x is not a double",
+    "rounding of the float Horner evaluation is not part of the read-path model; the correspondence demands equality "
+    "whenever every float operation on the element's path is exact (checked in Fractions) and otherwise the bound "
+    "sum|c_k|((|y|+d)^k-|y|^k) + 4*(2n+1)*2^-53*sum|c_k|(|y|+d)^k, d = 2^-53|x| if x is not a double; for d = 0 that "
+    "bound is implied by theorem C15_float_bound_linear under the standard model of IEEE arithmetic (each operation "
+    "returns exact*(1+delta), |delta| <= 2^-53, no overflow/underflow)",
     "coefficients / origins are finite real numbers (NaN, inf, complex origins, nested or non-numeric coefficient "
     "lists are outside the model and the generators)",
     "the h5py hyperslab read is the stand-in `select`+`gather` (integer and slice items, row-major); Ellipsis, "
@@ -678,9 +683,9 @@ def correspondence(ctx):
     cases = list(core.load_corpus(PROP))
     moved = changed_anchors()
     scale = 2 if (moved and ctx.quick()) else 1
-    n_exact = scale * ctx.budget(750, 8000)
-    n_float = scale * ctx.budget(260, 3000)
-    n_big = scale * ctx.budget(100, 1200)
+    n_exact = scale * ctx.budget(750, 5000)
+    n_float = scale * ctx.budget(260, 1800)
+    n_big = scale * ctx.budget(100, 700)
     for _ in range(n_exact):
         cases.append(gen_case(rng, "exact"))
     for _ in range(n_float):
@@ -1068,7 +1073,7 @@ def oracle(ctx, broken, hints):
             cases.append(h)
     cases += FIXED_CASES
     cases += list(core.load_corpus(PROP))
-    n = 4000 if (broken and not ctx.quick()) else 1200 if broken else ctx.budget(400, 4000)
+    n = 4000 if (broken and not ctx.quick()) else 1200 if broken else ctx.budget(400, 2500)
     for k in range(n):
         cases.append(gen_oracle_case(rng, "exact" if k % 4 else "float" if k % 8 else "big"))
     failures = []
